@@ -924,6 +924,10 @@ class AccessoryDriver:
                 set_result, set_result_value = _wrap_char_setter(
                     char, value, client_addr
                 )
+                if set_result == HAP_SERVER_STATUS.SUCCESS:
+                    # Service and accessory callbacks get the value as it was
+                    # stored (validated), like the characteristic callback
+                    value = char.to_valid_value(value)
 
             if set_result_value is not None and write_response_requested:
                 result = {HAP_REPR_STATUS: set_result, HAP_REPR_VALUE: set_result_value}
